@@ -262,7 +262,7 @@ def run_action(act, job, obs, classes):
             out["exception"] = {"type": type(e).__name__, "msg": str(e)[:300], "tb": traceback.format_exc()[-1500:]}
             return out
         out["define_time"] = time.time() - t0
-        classes[act.get("tag") or str(len(classes))] = (cls, act.get("vectors", []))
+        classes[act.get("tag") or str(len(classes))] = (cls, (act.get("vectors", []), act.get("constructs", [])))
         # cache file facts
         cache = os.path.join(job["workdir"], "__pkts__", "%s_%s.py" % (modname, act["class"]))
         try:
@@ -276,11 +276,12 @@ def run_action(act, job, obs, classes):
             obs.active = True
         out["uses_generated_unpack"] = cls.unpack_impl is not bisturi_packet().Packet.unpack_impl
         out["probe"] = probe(cls, act.get("vectors", []), obs)
+        out["construct_probe"] = construct_probe(cls, act.get("constructs", []), obs)
         # earlier classes of this process must keep behaving per their own declaration
         again = {}
         for tag, (c, vecs) in classes.items():
             if c is not cls:
-                again[tag] = probe(c, vecs, obs)
+                again[tag] = {"probe": probe(c, vecs[0], obs), "construct_probe": construct_probe(c, vecs[1], obs)}
         out["reprobe_earlier"] = again
         return out
     if op == "sleep_until":
@@ -312,9 +313,30 @@ def jsonable(v):
         return [jsonable(x) for x in v]
     if isinstance(v, bp.Packet):
         return {"__pkt__": type(v).__name__.rsplit("_", 1)[0],
-                "v": {name: jsonable(getattr(v, name, None)) for name, f, _, _ in v.get_fields()
+                "v": {(getattr(f, "descriptor_name", None) or name): jsonable(getattr(v, getattr(f, "descriptor_name", None) or name, None))
+                      for name, f, _, _ in v.get_fields()
                       if not name.startswith("_shift_to_") and type(f).__name__ != "Em"}}
     return v
+
+
+def construct_probe(cls, constructs, obs):
+    """Packets built by keyword (bytes given as hex) and serialized."""
+    import bisturi.packet as bp
+    res = []
+    was = obs.active
+    obs.active = False
+    try:
+        for kw in constructs:
+            real = {k: (bytes.fromhex(v["__bytes__"]) if isinstance(v, dict) and "__bytes__" in v else v) for k, v in kw.items()}
+            try:
+                res.append({"packed": cls(**real).pack().hex()})
+            except bp.PacketError:
+                res.append({"packed": "PacketError"})
+            except BaseException as e:
+                res.append({"error": type(e).__name__, "msg": str(e)[:150]})
+    finally:
+        obs.active = was
+    return res
 
 
 def probe(cls, vectors, obs):
